@@ -102,17 +102,42 @@ theorem straight_of_wk {p : PC} {c : Nat} {l : List Rid} (h : wk p = some (c, l)
   obtain ⟨bc, rfl⟩ := wk_some h
   exact ⟨by simp, rfl, rfl, rfl, rfl⟩
 
-/-- A thread cannot stay at a program point for ever without executing its next operation. -/
-theorem stuck_false (x : Exec s0) (H : FairHyps x) (hclk : ClockAdvances x) (t : Tid) (j : Nat) (hst : Still x t j)
+theorem Still.pc_ge {x : Exec s0} {t : Tid} {j : Nat} (h : Still x t j) {j' : Nat} (hj : j ≤ j') :
+    (x.ρ j').pc t = (x.ρ j).pc t := by
+  obtain ⟨d, rfl⟩ : ∃ d, j' = j + d := ⟨j' - j, by omega⟩
+  exact h.pc d
+
+theorem Still.fr_ge {x : Exec s0} {t : Tid} {j : Nat} (h : Still x t j) {j' : Nat} (hj : j ≤ j') :
+    frSame ((x.ρ j).fr t) ((x.ρ j').fr t) := by
+  obtain ⟨d, rfl⟩ : ∃ d, j' = j + d := ⟨j' - j, by omega⟩
+  exact h.fr d
+
+/-- asleep with a finite abs_deadline: once the clock has passed `min_ntime` the sleeper is not blocked any more -/
+theorem sleep_timed_unblocks (x : Exec s0) (hr : Reachable s0) (hclk : ClockAdvances x) (t : Tid) (j k : Nat)
+    (hst : Still x t j) (hpk : (x.ρ j).pc t = .wPdWait k) (d : Int) (hd : ((x.ρ j).fr t).dl = some d) :
+    ∃ j1, j ≤ j1 ∧ ∀ j', j1 ≤ j' → ¬ Blocked (x.ρ j') t := by
+  have hsd := (sleep_deadline_state (x.reach hr j) (.inr ⟨k, hpk⟩)).2.1
+  cases hmin : ((x.ρ j).fr t).min with
+  | none => rw [hmin, hd] at hsd; simp [dle, dlt] at hsd
+  | some m =>
+    obtain ⟨i', hi', hnow⟩ := hclk j t k m hpk hmin
+    refine ⟨i', hi', fun j2 hj2 hbl2 => ?_⟩
+    rcases hbl2 with ⟨k', hpk', _, hexp⟩ | ⟨o, ho, _⟩ | ⟨k', r, hpk', _, _⟩
+    · rw [frSame_min (hst.fr_ge (by omega)), hmin] at hexp
+      have := x.now_mono hj2
+      simp [expiredB] at hexp
+      omega
+    · rw [hst.pc_ge (by omega), hpk] at ho; cases ho
+    · rw [hst.pc_ge (by omega), hpk] at hpk'; cases hpk'
+
+/-- A thread cannot stay at a program point for ever without executing its next operation (`hsl`: if it is asleep
+    in the P of wait.c:78 it is eventually not blocked any more). -/
+theorem stuck_false (x : Exec s0) (H : FairHyps x) (t : Tid) (j : Nat) (hst : Still x t j)
     (hni : (x.ρ j).pc t ≠ .idle)
-    (hdl : ∀ k, (x.ρ j).pc t = .wPdWait k → ∃ d : Int, ((x.ρ j).fr t).dl = some d) : False := by
+    (hsl : ∀ k, (x.ρ j).pc t = .wPdWait k → ∃ j1, j ≤ j1 ∧ ∀ j', j1 ≤ j' → ¬ Blocked (x.ρ j') t) : False := by
   have hr := H.reach
-  have hpcc : ∀ j', j ≤ j' → (x.ρ j').pc t = (x.ρ j).pc t := fun j' hj => by
-    obtain ⟨d, rfl⟩ : ∃ d, j' = j + d := ⟨j' - j, by omega⟩
-    exact hst.pc d
-  have hfrc : ∀ j', j ≤ j' → frSame ((x.ρ j).fr t) ((x.ρ j').fr t) := fun j' hj => by
-    obtain ⟨d, rfl⟩ : ∃ d, j' = j + d := ⟨j' - j, by omega⟩
-    exact hst.fr d
+  have hpcc : ∀ j', j ≤ j' → (x.ρ j').pc t = (x.ρ j).pc t := fun j' hj => hst.pc_ge hj
+  have hfrc : ∀ j', j ≤ j' → frSame ((x.ρ j).fr t) ((x.ρ j').fr t) := fun j' hj => hst.fr_ge hj
   -- blocked again and again
   have hb : ∀ i, j ≤ i → ∃ j', i ≤ j' ∧ Blocked (x.ρ j') t := by
     intro i hi
@@ -123,22 +148,11 @@ theorem stuck_false (x : Exec s0) (H : FairHyps x) (hclk : ClockAdvances x) (t :
     exact hst.no_move (by omega) hm
   obtain ⟨j1, hj1, hbl⟩ := hb j (Nat.le_refl _)
   rcases hbl with ⟨k, hpk, _, _⟩ | ⟨o, ho, _⟩ | ⟨k, r, hpk, hrec, hw⟩
-  · -- asleep: the clock passes `min_ntime`
+  · -- asleep
     rw [hpcc j1 hj1] at hpk
-    obtain ⟨d, hd⟩ := hdl k hpk
-    have hsd := (sleep_deadline_state (x.reach hr j) (.inr ⟨k, hpk⟩)).2.1
-    cases hmin : ((x.ρ j).fr t).min with
-    | none => rw [hmin, hd] at hsd; simp [dle, dlt] at hsd
-    | some m =>
-      obtain ⟨i', hi', hnow⟩ := hclk j t k m hpk hmin
-      obtain ⟨j2, hj2, hbl2⟩ := hb i' hi'
-      rcases hbl2 with ⟨k', hpk', _, hexp⟩ | ⟨o, ho, _⟩ | ⟨k', r, hpk', _, _⟩
-      · rw [frSame_min (hfrc j2 (by omega)), hmin] at hexp
-        have := x.now_mono hj2
-        simp [expiredB] at hexp
-        omega
-      · rw [hpcc j2 (by omega), hpk] at ho; cases ho
-      · rw [hpcc j2 (by omega), hpk] at hpk'; cases hpk'
+    obtain ⟨j2, hj2, hnb⟩ := hsl k hpk
+    obtain ⟨j3, hj3, hbl3⟩ := hb j2 hj2
+    exact hnb j3 hj3 hbl3
   · -- acquiring a lock that is free again and again
     refine H.lock t o j1 (fun j' hj' => ?_) (fun j' _ => lock_free_again x hr H.weak H.foreign o j')
     have h1 := lockWait_of_block ho
